@@ -270,33 +270,43 @@ func (e *env) rcv(auth bool) *rcv {
 	return e.plain
 }
 
-func newEnv(t *testing.T) *env {
-	t.Helper()
+func buildEnv() (*env, error) {
 	e := &env{exps: map[expKey]sendFunc{}, conns: map[bool]*grpc.ClientConn{}}
 	var err error
 	if e.plain, err = startReceiver(false); err != nil {
-		t.Fatalf("cannot start receiver: %v", err)
+		return nil, fmt.Errorf("cannot start receiver: %w", err)
 	}
 	if e.authed, err = startReceiver(true); err != nil {
 		_ = e.plain.shutdown()
-		t.Fatalf("cannot start receiver with authenticator: %v", err)
+		return nil, fmt.Errorf("cannot start receiver with authenticator: %w", err)
 	}
 	e.httpc = &http.Client{Timeout: 60 * time.Second, Transport: &http.Transport{MaxIdleConnsPerHost: 4, DisableCompression: true}}
 	for _, a := range []bool{false, true} {
 		cc, cerr := grpc.NewClient(e.rcv(a).grpcAddr, grpc.WithTransportCredentials(insecure.NewCredentials()))
 		if cerr != nil {
-			t.Fatalf("grpc.NewClient: %v", cerr)
+			return nil, fmt.Errorf("grpc.NewClient: %w", cerr)
 		}
 		e.conns[a] = cc
 	}
 	if e.probe, err = newRetryProbe(); err != nil {
-		t.Fatalf("retry probe: %v", err)
+		return nil, fmt.Errorf("retry probe: %w", err)
+	}
+	return e, nil
+}
+
+// newEnv starts the environment of one test function and registers its
+// orderly shutdown (exporters, clients, both receivers) as a cleanup.
+func newEnv(t *testing.T) *env {
+	t.Helper()
+	e, err := buildEnv()
+	if err != nil {
+		t.Fatalf("%v", err)
 	}
 	t.Cleanup(func() { e.close(t) })
 	return e
 }
 
-func (e *env) close(t *testing.T) {
+func (e *env) close(t testing.TB) {
 	ctx := context.Background()
 	for _, cc := range e.conns {
 		_ = cc.Close()
